@@ -8,6 +8,7 @@ import (
 	_ "verifharness/c05"
 	_ "verifharness/c06"
 	_ "verifharness/c07"
+	_ "verifharness/c08"
 	_ "verifharness/c09"
 	_ "verifharness/c10"
 	_ "verifharness/c10r"
